@@ -19,7 +19,7 @@ func main() {
 		Property:   "C03",
 		Rule:       "random DB programs with up to 12 simultaneously live snapshots and 4 pinned iterators at random positions between overwrites and deletes of the same keys, interleaved with forced flushes and CompactRange; each snapshot keeps a frozen copy of the Go map and is compared (all pool keys + full scan) at every snapshot read, at checkpoints and before release; pinned iterators are stepped between compactions and compared with their creation-time list; non-trivial = a table compaction ran while >=1 snapshot was live",
 		Header:     "From GL Require Import Corr.C03Run.",
-		QuickProgs: 240, QuickOps: 320, ThorProgs: 2000, ThorOps: 1200,
+		QuickProgs: 560, QuickOps: 320, ThorProgs: 2000, ThorOps: 1200,
 		Weights: w, CheckEvery: 8,
 		KPrefixes: []string{"KCompact"}, KCapQuick: 200, KCapThor: 900, KPerRun: 6,
 		NonTrivial: func(s map[string]int) bool { return s["table_compactions"] >= 1 && s["op_snap"] >= 1 },
